@@ -81,6 +81,76 @@ def check_membership(coarse, fine, shared_atoms=False):
     return out
 
 
+# ------------------------------------------------------------------------------------------- shared atoms (C02 a, by construction)
+def check_shared(coarse, fine, expect, names, all_atom):
+    """Inputs with shared atoms (`!`) whose fine graph is known by construction (gen.gr_resolver_inputs.shared_cases):
+    expect = {'atoms': [{'name', 'members': [coarse keys], 'origin': [[coarse key, template atom], ...]}],
+    'bonds': [[i, j, order]]}, names = {coarse key: fragment name}.  There must be an isomorphism between the heavy fine
+    graph and the expected graph (element / atomname, bond orders) under which every atom records exactly the coarse
+    nodes whose fragment contains it (each once), and - the resolver's own 'mapping' record - exactly the template atoms
+    it stems from.  Completed hydrogens carry the membership of the atom they sit on; an atom that belongs to one
+    coarse node reports that node's fragment name, a shared atom the name of one of its coarse nodes."""
+    out = []
+    attr = 'element' if all_atom else 'atomname'
+    heavy = [n for n in fine.nodes if not (all_atom and fine.nodes[n].get('element') == 'H')]
+    E = nx.Graph()
+    for i, a in enumerate(expect['atoms']):
+        E.add_node(i, name=a['name'], members=sorted(a['members']), origin=sorted((names[k], t) for k, t in a['origin']))
+    for u, v, o in expect['bonds']:
+        E.add_edge(u, v, order=o)
+    H = fine.subgraph(heavy)
+
+    def fid(b):
+        f = b.get('fragid')
+        try:
+            return sorted(f) if isinstance(f, list) else None
+        except TypeError:
+            return None
+
+    def mapped(b):
+        m = b.get('mapping')
+        try:
+            return sorted((x[0], x[1]) for x in m) if isinstance(m, list) else None
+        except (TypeError, IndexError, KeyError):
+            return None
+
+    def em(a, b):
+        return _eq(a.get('order'), b.get('order'))
+    seen = _short([(n, fine.nodes[n].get(attr), fine.nodes[n].get('fragid'), fine.nodes[n].get('mapping')) for n in heavy], 700)
+    want = _short([(a['name'], a['members'], [(names[k], t) for k, t in a['origin']]) for a in expect['atoms']], 700)
+    same_size = H.number_of_nodes() == E.number_of_nodes() and H.number_of_edges() == E.number_of_edges()
+    if not (same_size and nx.is_isomorphic(E, H, node_match=lambda a, b: a['name'] == b.get(attr), edge_match=em)):
+        out.append(('shared-structure', 'heavy fine graph (%d nodes, %d edges) %s edges %s is not the molecule the fragments describe '
+                    '(%d atoms, bonds %s)' % (H.number_of_nodes(), H.number_of_edges(), seen,
+                                              _short(sorted((min(u, v), max(u, v), d.get('order')) for u, v, d in H.edges(data=True))),
+                                              E.number_of_nodes(), _short(expect['bonds']))))
+        return out
+    if not nx.is_isomorphic(E, H, node_match=lambda a, b: a['name'] == b.get(attr) and a['members'] == fid(b), edge_match=em):
+        out.append(('shared-membership', 'no isomorphism under which every atom records exactly the coarse nodes whose fragment '
+                    'contains it: fine (node, name, fragid, mapping) %s; by construction (name, coarse nodes, template atoms) %s' % (seen, want)))
+    elif not nx.is_isomorphic(E, H, node_match=lambda a, b: a['name'] == b.get(attr) and a['members'] == fid(b)
+                              and a['origin'] == mapped(b), edge_match=em):
+        out.append(('shared-mapping', 'memberships are right but the mapping records are not the template atoms the atoms stem '
+                    'from: fine (node, name, fragid, mapping) %s; by construction %s' % (seen, want)))
+    for n in fine.nodes:
+        d = fine.nodes[n]
+        f = fid(d)
+        if n in H:
+            if f and not any(d.get('fragname') == names.get(k) for k in f):
+                out.append(('fragname', 'fine node %r belongs to coarse nodes %s (%s) but reports fragname %r' % (
+                    n, f, [names.get(k) for k in f], d.get('fragname'))))
+                break
+            continue
+        nb = list(fine.neighbors(n))
+        if len(nb) != 1:
+            out.append(('completed-node-not-a-hydrogen', 'hydrogen %r has %d neighbours' % (n, len(nb))))
+        elif f is None or f != fid(fine.nodes[nb[0]]):
+            out.append(('shared-hydrogen-membership', 'hydrogen %r records %r, the atom %r it sits on records %r' % (
+                n, d.get('fragid'), nb[0], fine.nodes[nb[0]].get('fragid'))))
+            break
+    return out
+
+
 # ------------------------------------------------------------------------------------------- copies (C02 b)
 def heavy_nodes(fine, nodes, template, all_atom):
     """The non-completed nodes among `nodes`: everything that is not a hydrogen, plus as many hydrogens as the
